@@ -13,14 +13,6 @@ CATS = {
 
 def known_class(j, cat, text):
     f = j.fmt
-    if cat == "partition" and f.codec in (0x06, 0x07) and text.startswith("[only PEAK chunk bytes]"):
-        chunk = 2048 if f.codec == 0x06 else 1024
-        own = "f32" if f.codec == 0x06 else "f64"
-        longest = max([j.n] + list(getattr(j, "parts", []))) * j.ch
-        if j.ty != own and longest > chunk and chunk % j.ch != 0:
-            return "KF-C18-STAGING-MISALIGN"
-        if f.codec == 0x07 and j.ty in ("f64", "s32"):
-            return "KF-C18-DOUBLE-NARROW"
     if f.codec == 0x21:
         return "KF-VOX-ODD"
     if f.major == 0x04 and f.codec in (0x40, 0x41, 0x42):
